@@ -179,6 +179,11 @@ class NetSession:
             frame = RF24NetworkFrame(hdr, unhex(t[3]))
             r = node.write(frame, int(t[4]))
             return f"{sb(r)} frame={show_frame(frame)}"
+        if m == "writeid":       # a frame whose header (hence frame_id) the caller re-uses
+            frame = RF24NetworkFrame(RF24NetworkHeader(int(t[1]), int(t[2])), unhex(t[3]))
+            frame.header.frame_id = int(t[4])
+            r = node.write(frame)
+            return f"{sb(r)} frame={show_frame(frame)}"
         if m == "multicast":
             return sb(node.multicast(unhex(t[1]), int(t[2]), opt_int(t[3])))
         if m == "rf":            # the RadioMixin pass-throughs, called on the node object itself
